@@ -199,8 +199,9 @@ Variable isalpha_c : N -> bool.      (* str.isalpha per code point *)
 Variable isprint_c : N -> bool.      (* str.isprintable per code point *)
 Variable foldc : N -> N.             (* str.casefold per code point (length preserving part) *)
 Variable titlec lowerc : N -> N.     (* str.capitalize: first / other code points *)
-(* false = the code before the repairs of C13-F2 (check_tag_formatting), C13-F3 (check_capitalization) and
-   C13-F4 (set_schema_prefix); true = the code as it is now *)
+(* true = the code as it is: /repo with fix commits 02171e0 (C13-F2, check_tag_formatting), bb02e3e (C13-F3,
+   check_capitalization) and 9d4df4f (C13-F4, set_schema_prefix); false = the behaviour before those commits, kept
+   only as the record of the repaired defects *)
 Variable fixed : bool.
 
 Definition fold (s : str) : str := map foldc s.
